@@ -11,6 +11,8 @@ use flatty::{
     traits::{Flat, FlatBase, FlatDefault, FlatSized, FlatUnsized, FlatValidate},
     vec, FlatString, FlatVec, FlatWrap, FlexVec, TrustedRef,
 };
+use crate::io_glue::{JoinedReport, RecvReport, SendReport};
+use crate::pipes::{ROut, ScriptSink, ScriptSource, WOut};
 use std::cell::Cell;
 use std::marker::PhantomData;
 
@@ -822,6 +824,10 @@ pub type Session<'s> = &'s mut dyn FnMut(&mut dyn Live);
 
 pub trait DynShape: Sync + Send {
     fn ty(&self) -> &Ty;
+    /// are the flatty-io drivers instantiated for this shape?
+    fn is_message_shape(&self) -> bool {
+        false
+    }
     fn consts(&self) -> Consts;
     fn validate(&self, b: &[u8]) -> Result<(), FErr>;
     fn from_bytes(&self, b: &[u8]) -> Result<ReadOut, FErr>;
@@ -838,6 +844,25 @@ pub trait DynShape: Sync + Send {
     /// FlatWrap::new_in_place over `&mut [u8]` (kind 0), `Vec<u8>` (1, align 1 only), `AlignedBytes` (2).
     /// For kinds 1/2 a fresh buffer of `b.len()` bytes is allocated and the result copied back.
     fn wrap_new_in_place(&self, kind: u8, b: &mut [u8], v: Option<&Value>, route: &[u8]) -> Option<Result<ReadOut, FErr>>;
+
+    // ---- flatty-io drivers (see io_glue.rs)
+    fn io_send_blocking(&self, msgs: &[Value], routes: &[u8], max_msg_len: usize, sink: &mut ScriptSink, keep_going: bool) -> SendReport;
+    fn io_recv_blocking(&self, source: &mut ScriptSource, max_msg_len: usize, max_events: usize, retries: usize) -> RecvReport;
+    fn io_async_send(&self, msgs: &[Value], routes: &[u8], max_msg_len: usize, sink: &mut ScriptSink, max_polls: usize, keep_going: bool) -> SendReport;
+    fn io_async_recv(&self, source: &mut ScriptSource, max_msg_len: usize, max_events: usize, retries: usize, max_polls: usize) -> RecvReport;
+    #[allow(clippy::too_many_arguments)]
+    fn io_async_joined(
+        &self,
+        msgs: &[Value],
+        routes: &[u8],
+        max_msg_len: usize,
+        cap: usize,
+        wscript: Vec<WOut>,
+        rscript: Vec<ROut>,
+        fscript: Vec<bool>,
+        schedule: &[u8],
+        max_polls: usize,
+    ) -> JoinedReport;
 }
 
 struct Of<T: Shape + ?Sized> {
@@ -963,13 +988,108 @@ impl<T: Shape + ?Sized> DynShape for Of<T> {
             }
         }
     }
+
+    fn io_send_blocking(&self, _: &[Value], _: &[u8], _: usize, _: &mut ScriptSink, _: bool) -> SendReport {
+        panic!("harness: {} is not registered as a message shape", self.ty.short())
+    }
+    fn io_recv_blocking(&self, _: &mut ScriptSource, _: usize, _: usize, _: usize) -> RecvReport {
+        panic!("harness: {} is not registered as a message shape", self.ty.short())
+    }
+    fn io_async_send(&self, _: &[Value], _: &[u8], _: usize, _: &mut ScriptSink, _: usize, _: bool) -> SendReport {
+        panic!("harness: {} is not registered as a message shape", self.ty.short())
+    }
+    fn io_async_recv(&self, _: &mut ScriptSource, _: usize, _: usize, _: usize, _: usize) -> RecvReport {
+        panic!("harness: {} is not registered as a message shape", self.ty.short())
+    }
+    fn io_async_joined(&self, _: &[Value], _: &[u8], _: usize, _: usize, _: Vec<WOut>, _: Vec<ROut>, _: Vec<bool>, _: &[u8], _: usize) -> JoinedReport {
+        panic!("harness: {} is not registered as a message shape", self.ty.short())
+    }
+}
+
+/// Like `Of<T>`, but with the flatty-io drivers instantiated (message shapes only, to bound compile time).
+struct OfIo<T: Shape + ?Sized>(Of<T>);
+
+pub fn entry_io<T: Shape + ?Sized + 'static>() -> Box<dyn DynShape> {
+    Box::new(OfIo::<T>(Of::<T> {
+        ty: T::ty(),
+        _g: PhantomData,
+    }))
+}
+
+impl<T: Shape + ?Sized> DynShape for OfIo<T> {
+    fn ty(&self) -> &Ty {
+        self.0.ty()
+    }
+    fn is_message_shape(&self) -> bool {
+        true
+    }
+    fn consts(&self) -> Consts {
+        self.0.consts()
+    }
+    fn validate(&self, b: &[u8]) -> Result<(), FErr> {
+        self.0.validate(b)
+    }
+    fn from_bytes(&self, b: &[u8]) -> Result<ReadOut, FErr> {
+        self.0.from_bytes(b)
+    }
+    fn from_mut_bytes(&self, b: &mut [u8]) -> Result<ReadOut, FErr> {
+        self.0.from_mut_bytes(b)
+    }
+    fn from_bytes_only(&self, b: &[u8]) -> Result<(), FErr> {
+        self.0.from_bytes_only(b)
+    }
+    fn from_mut_bytes_only(&self, b: &mut [u8]) -> Result<(), FErr> {
+        self.0.from_mut_bytes_only(b)
+    }
+    fn from_wrapped_bytes(&self, b: &[u8]) -> Result<ReadOut, FErr> {
+        self.0.from_wrapped_bytes(b)
+    }
+    fn new_in_place(&self, b: &mut [u8], v: &Value, route: &[u8], f: Session) -> Result<(), FErr> {
+        self.0.new_in_place(b, v, route, f)
+    }
+    fn default_in_place(&self, b: &mut [u8], f: Session) -> Option<Result<(), FErr>> {
+        self.0.default_in_place(b, f)
+    }
+    fn map_mut(&self, b: &mut [u8], f: Session) -> Result<(), FErr> {
+        self.0.map_mut(b, f)
+    }
+    fn wrap_new_in_place(&self, kind: u8, b: &mut [u8], v: Option<&Value>, route: &[u8]) -> Option<Result<ReadOut, FErr>> {
+        self.0.wrap_new_in_place(kind, b, v, route)
+    }
+
+    fn io_send_blocking(&self, msgs: &[Value], routes: &[u8], max_msg_len: usize, sink: &mut ScriptSink, keep_going: bool) -> SendReport {
+        crate::io_glue::send_blocking::<T>(msgs, routes, max_msg_len, sink, keep_going)
+    }
+    fn io_recv_blocking(&self, source: &mut ScriptSource, max_msg_len: usize, max_events: usize, retries: usize) -> RecvReport {
+        crate::io_glue::recv_blocking::<T>(source, max_msg_len, max_events, retries)
+    }
+    fn io_async_send(&self, msgs: &[Value], routes: &[u8], max_msg_len: usize, sink: &mut ScriptSink, max_polls: usize, keep_going: bool) -> SendReport {
+        crate::io_glue::async_send::<T>(msgs, routes, max_msg_len, sink, max_polls, keep_going)
+    }
+    fn io_async_recv(&self, source: &mut ScriptSource, max_msg_len: usize, max_events: usize, retries: usize, max_polls: usize) -> RecvReport {
+        crate::io_glue::async_recv::<T>(source, max_msg_len, max_events, retries, max_polls)
+    }
+    fn io_async_joined(
+        &self,
+        msgs: &[Value],
+        routes: &[u8],
+        max_msg_len: usize,
+        cap: usize,
+        wscript: Vec<WOut>,
+        rscript: Vec<ROut>,
+        fscript: Vec<bool>,
+        schedule: &[u8],
+        max_polls: usize,
+    ) -> JoinedReport {
+        crate::io_glue::async_joined::<T>(msgs, routes, max_msg_len, cap, wscript, rscript, fscript, schedule, max_polls)
+    }
 }
 
 // silence unused warnings for imports only used by generated code
 #[allow(unused_imports)]
 pub(crate) mod for_shapes {
     pub use super::{
-        entry, sized_op, unsized_op, DynShape, LenShape, Op, OpOut, Recorder, Route, Shape, SizedShape, ValEmplacer,
+        entry, entry_io, sized_op, unsized_op, DynShape, LenShape, Op, OpOut, Recorder, Route, Shape, SizedShape, ValEmplacer,
     };
     pub use crate::desc::{Ty, Value};
     pub use flatty::{
